@@ -235,7 +235,7 @@ def _discr_ok_targets(body, local):
     return out
 
 
-def must_pass(P, fn_qual, callee_rx, before_rx=None, start_after_rx=None, require_checked=True):
+def must_pass(P, fn_qual, callee_rx, before_rx=None, start_after_rx=None, require_checked=True, _depth=0):
     """every path from the entry of F to a success return (or to a call matching `before_rx`)
     passes through a call matching `callee_rx` whose failure cannot reach a success return."""
     fn = P.fn(fn_qual)
@@ -253,6 +253,13 @@ def must_pass(P, fn_qual, callee_rx, before_rx=None, start_after_rx=None, requir
             else:
                 barriers.add(t['t'])
         barriers |= passes
+    if not r.sites and not before_rx and _depth < 2:
+        # the call may have moved into a helper that F calls unconditionally
+        for h in unconditional_local_callees(P, fn):
+            hr = must_pass(P, h['key'], callee_rx, None, None, require_checked, _depth + 1)
+            if hr.sites and not hr.violations:
+                hr.sites = ['%s -> helper %s' % (fn['qual'], x) for x in hr.sites]
+                return hr
     if not r.sites:
         r.bad('call-missing', '`%s` no longer calls %s' % (fn['qual'], callee_rx))
         return r
@@ -296,6 +303,34 @@ def _witness_path(body, start, goals, avoid):
     return []
 
 
+def unconditional_local_callees(P, fn):
+    """bodies of workspace functions that `fn` calls on every success path with a checked result (helper functions)"""
+    body = P.body(fn)
+    out = []
+    errs = set(body.err_blocks)
+    by = collections.defaultdict(list)
+    for bi, t in body.calls():
+        c = t.get('callee') or {}
+        res = c.get('res') or {}
+        k = P.lookup(res.get('path') or c.get('path', ''), fn['crate'])
+        if k is None and c.get('trait') and c.get('gargs'):
+            # default method of the same trait called on Self
+            k = P.defaults.get((c['trait']['trait'], c['trait']['name']))
+        if k and k != fn['key']:
+            by[k].append(bi)
+    for k, blocks in by.items():
+        barriers = set()
+        for b in blocks:
+            passes, why = checked_pass_blocks(body, b)
+            barriers |= passes
+        if not barriers:
+            continue
+        reach = body.reach([0], barriers | errs)
+        if not any(body.term(x)['k'] == 'return' for x in reach):
+            out.append(P.fns[k])
+    return out
+
+
 # ------------------------------------------------------------------------------ ORDER
 def order(P, fn_qual, first_rx, then_rx, all_of_then=True):
     """every path from entry to a call matching `then_rx` passes a call matching `first_rx`"""
@@ -320,7 +355,7 @@ def order(P, fn_qual, first_rx, then_rx, all_of_then=True):
 
 
 # ------------------------------------------------------------------------------ GUARD
-def guard(P, fn_qual, rel, a_rx, b_rx=None, err=None, dominates_rx=None):
+def guard(P, fn_qual, rel, a_rx, b_rx=None, err=None, dominates_rx=None, _depth=0):
     """F contains a comparison that fails when `A rel B` and whose failing side cannot reach a success return"""
     fn = P.fn(fn_qual)
     body = P.body(fn)
@@ -329,6 +364,13 @@ def guard(P, fn_qual, rel, a_rx, b_rx=None, err=None, dominates_rx=None):
     found = [g for g in gs if g.matches(rel, a_rx, b_rx)]
     for g in found:
         r.site('%s: %s @%s' % (fn['qual'], g.text()[:160], g.ln))
+    if not found and not dominates_rx and _depth < 2:
+        # the comparison may have moved into a helper that F calls unconditionally (its failure propagates through `?`)
+        for h in unconditional_local_callees(P, fn):
+            hr = guard(P, h['key'], rel, a_rx, b_rx, err, None, _depth + 1)
+            if hr.sites and not hr.violations:
+                hr.sites = ['%s -> helper %s' % (fn['qual'], x) for x in hr.sites]
+                return hr
     if not found:
         near = [g for g in gs if re.search(a_rx, g.lhs + ' ' + g.rhs)]
         r.bad('guard-missing', '`%s` has no guard that fails when [%s] %s [%s]; guards on that operand now: %s'
@@ -1115,9 +1157,10 @@ def fns_in_files(P, files):
 
 
 def condition_inventory(P, files):
-    """{owner fn qual: {normalised condition: count}} for every two-way branch on a comparison / bool in the functions
-    (and their closures) defined in `files`"""
+    """{source file: {normalised condition: count}} for every two-way branch on a comparison / bool in the functions
+    (and their closures) defined in `files`; keyed per FILE so that moving code between functions of one file does not matter"""
     out = {}
+    hints = {}
     for fn in fns_in_files(P, files):
         if fn.get('mac'):
             continue
@@ -1156,9 +1199,11 @@ def condition_inventory(P, files):
                 if r_ in ('==', '!=') and c < a:
                     a, c = c, a
                 key = '%s %s %s' % (a, r_, c)
-            oq = owner_qual(P, fn)
-            out.setdefault(oq, {})
-            out[oq][key] = out[oq].get(key, 0) + 1
+            fl = fn['loc'].rsplit(':', 1)[0]
+            out.setdefault(fl, {})
+            out[fl][key] = out[fl].get(key, 0) + 1
+            hints.setdefault(fl, {}).setdefault(key, set()).add(owner_qual(P, fn))
+    condition_inventory.hints = {f: {k: sorted(v) for k, v in d.items()} for f, d in hints.items()}
     return out
 
 
@@ -1195,13 +1240,30 @@ def mustpass_inventory(P, files):
                 must.append(cn)
         if must:
             out[fn['qual']] = sorted(must)
+    # transitive closure through unconditional calls to functions of the same file set: extracting a helper that is itself
+    # called unconditionally keeps the set of the caller
+    changed = True
+    rounds = 0
+    while changed and rounds < 6:
+        changed = False
+        rounds += 1
+        for q, lst in out.items():
+            cur = set(lst)
+            for c in list(cur):
+                if c in out and c != q:
+                    new = set(out[c]) - cur
+                    if new:
+                        cur |= new
+                        changed = True
+            out[q] = sorted(cur)
     return out
 
 
 def wiring_inventory(P, files):
-    """{owner fn qual: {"callee#argindex <- normalised origin": count}} for every call to a workspace function in the
+    """{source file: {"callee#argindex <- normalised origin": count}} for every call to a workspace function in the
     functions (and closures) defined in `files`. Plain locals / parameters (`_`) and closures are not recorded."""
     out = {}
+    hints = {}
     for fn in fns_in_files(P, files):
         if fn.get('mac'):
             continue
@@ -1224,6 +1286,9 @@ def wiring_inventory(P, files):
                 if s in ('_', '?') or s.startswith('{closure') or re.fullmatch(r'[_.\d]+', s):
                     continue
                 key = '%s#%d <- %s' % (cn, i, s)
-                out.setdefault(oq, {})
-                out[oq][key] = out[oq].get(key, 0) + 1
+                fl = fn['loc'].rsplit(':', 1)[0]
+                out.setdefault(fl, {})
+                out[fl][key] = out[fl].get(key, 0) + 1
+                hints.setdefault(fl, {}).setdefault(key, set()).add(oq)
+    wiring_inventory.hints = {f: {k: sorted(v) for k, v in d.items()} for f, d in hints.items()}
     return out
